@@ -138,6 +138,7 @@ class Conformer:
         if st == 'infeasible':
             return 'rejected', ''
         if st == 'optimal':
+            self.last_completion = x
             return 'ACCEPTED', 'near-miss (%s at step %d) has a feasible completion' % (beh['fault'], beh['at'])
         return 'skipped', st
 
